@@ -697,6 +697,27 @@ def check(prop, tier, pat=None, keep=False):
             print("VIOLATION property=C04 replay=%s no-failing-input-found" % path)
         if err:
             print("UNDECIDED property=C04 job=callsite_scan %s" % err)
+    if prop == "C06":
+        import c18scan
+        try:
+            r06 = c18scan.run_reader_scan()
+            err = ("goto-cc failed on %d files: %s" % (len(r06["errors"]), r06["errors"][0]["file"])) if r06["errors"] else ""
+        except Exception as e:
+            r06, err = {"files": 0, "callees": [], "findings": []}, "scan failed: %r" % e
+        extra = {"new_writes": r06["findings"], "error": err, "summary": {
+            "translation_units": r06["files"], "readers_whose_result_must_be_tested": r06["callees"], "call_sites_ignoring_the_result": r06["findings"],
+            "excluded_files": list(c18scan.READER_EXCLUDED_FILES), "limitation": "syntactic: a call whose return value is discarded"}}
+        for w in r06["findings"]:
+            dest = os.path.join(OUTROOT, "replay", prop, "callsite_scan")
+            os.makedirs(dest, exist_ok=True)
+            path = os.path.join(dest, "replay.json")
+            json.dump({"obligation": "the result of a wire-format / DER reader is tested before its outputs are used", "call_site": w,
+                       "verifier_output": "goto-instrument --show-goto-functions: CALL %s at %s:%s in %s (result discarded)" % (
+                           w["callee"], w["file"], w["line"], w["function"]), "native_reproduced": None}, open(path, "w"), indent=1)
+            print("FAILED-OBLIGATION property=C06 job=callsite_scan %s:%s %s calls %s: result ignored" % (w["file"], w["line"], w["function"], w["callee"]))
+            print("VIOLATION property=C06 replay=%s no-failing-input-found" % path)
+        if err:
+            print("UNDECIDED property=C06 job=callsite_scan %s" % err)
     if prop == "C18":
         import c18scan
         try:
